@@ -1155,3 +1155,106 @@ Proof.
   - unfold binaryio_source, lines. rewrite split_after_lf_lines by exact N. apply stream_source_id. exact F'.
   - split; [reflexivity|apply stream_source_id; exact F].
 Qed.
+
+(* ================================================================ assemble_from_iterable is independent of the order of its parts *)
+
+Lemma insert_by_frag_perm : forall m l, Permutation (insert_by_frag m l) (m :: l).
+Proof.
+  induction l as [|x r IH]; simpl; [apply Permutation_refl|].
+  destruct (a_frag_num m <? a_frag_num x); [apply Permutation_refl|].
+  apply perm_trans with (x :: m :: r); [apply perm_skip; exact IH|apply perm_swap].
+Qed.
+
+Lemma sort_by_frag_perm : forall l, Permutation (sort_by_frag l) l.
+Proof.
+  induction l as [|x r IH]; [apply Permutation_refl|]. unfold sort_by_frag in *. simpl.
+  apply perm_trans with (x :: fold_right insert_by_frag [] r); [apply insert_by_frag_perm|apply perm_skip; exact IH].
+Qed.
+
+(* sorted by fragment number, weakly *)
+Fixpoint num_sorted (l : list ais_sentence) : Prop :=
+  match l with
+  | [] => True
+  | x :: r => Forall (fun y => a_frag_num x <= a_frag_num y) r /\ num_sorted r
+  end.
+
+Lemma insert_by_frag_sorted : forall m l, num_sorted l -> num_sorted (insert_by_frag m l).
+Proof.
+  induction l as [|x r IH]; intro S; simpl; [split; [constructor|exact I]|].
+  destruct S as [S1 S2]. destruct (a_frag_num m <? a_frag_num x) eqn:E.
+  - apply Z.ltb_lt in E. split; [|split; assumption].
+    constructor; [lia|]. eapply Forall_impl; [|exact S1]. simpl. intros; lia.
+  - apply Z.ltb_ge in E. split; [|apply IH; exact S2].
+    apply (Permutation_Forall (Permutation_sym (insert_by_frag_perm m r))). constructor; [exact E|exact S1].
+Qed.
+
+Lemma sort_by_frag_sorted_out : forall l, num_sorted (sort_by_frag l).
+Proof.
+  induction l as [|x r IH]; [exact I|]. unfold sort_by_frag in *. simpl. apply insert_by_frag_sorted. exact IH.
+Qed.
+
+Lemma sorted_perm_unique : forall l1 l2, num_sorted l1 -> num_sorted l2 -> Permutation l1 l2 ->
+  NoDup (map a_frag_num l1) -> l1 = l2.
+Proof.
+  induction l1 as [|a l1 IH]; intros l2 S1 S2 P N.
+  - apply Permutation_nil in P. subst. reflexivity.
+  - destruct l2 as [|b l2]; [apply Permutation_sym, Permutation_nil in P; discriminate|].
+    destruct S1 as [A1 A2]. destruct S2 as [B1 B2]. simpl in N. inversion N as [|? ? N1 N2]; subst.
+    assert (Hab : a = b).
+    { assert (Hb : In b (a :: l1)) by (apply (Permutation_in _ (Permutation_sym P)); left; reflexivity).
+      assert (Ha : In a (b :: l2)) by (apply (Permutation_in _ P); left; reflexivity).
+      destruct Hb as [Hb|Hb]; [exact Hb|]. destruct Ha as [Ha|Ha]; [auto|].
+      rewrite Forall_forall in A1, B1. assert (K1 := A1 b Hb). assert (K2 := B1 a Ha).
+      exfalso. apply N1. replace (a_frag_num a) with (a_frag_num b) by lia. apply in_map. exact Hb. }
+    subst b. f_equal. apply IH; auto. apply Permutation_cons_inv with a. exact P.
+Qed.
+
+Theorem sort_by_frag_permutation : forall l l', Permutation l l' -> NoDup (map a_frag_num l) ->
+  sort_by_frag l = sort_by_frag l'.
+Proof.
+  intros l l' P N. apply sorted_perm_unique; try apply sort_by_frag_sorted_out.
+  - apply perm_trans with l; [apply sort_by_frag_perm|]. apply perm_trans with l'; [exact P|].
+    apply Permutation_sym, sort_by_frag_perm.
+  - apply (Permutation_NoDup (Permutation_map a_frag_num (Permutation_sym (sort_by_frag_perm l)))). exact N.
+Qed.
+
+(* what decode() and the readers observe of an assembled sentence besides the identity of messages[0] *)
+Definition assembled_view (r : M ais_sentence) : option (bytes * bytes * bits * bool * Z) :=
+  match r with
+  | Ok a => Some (c_raw (a_common a), a_payload a, a_bits a, c_is_valid (a_common a), a_ais_id a)
+  | Raise _ => None
+  end.
+
+Theorem assemble_perm : forall l l', Permutation l l' -> NoDup (map a_frag_num l) ->
+  assembled_view (assemble_from_iterable l) = assembled_view (assemble_from_iterable l').
+Proof.
+  intros l l' P N. unfold assemble_from_iterable. rewrite (sort_by_frag_permutation l l' P N).
+  destruct l as [|a l]; destruct l' as [|b l'].
+  - reflexivity.
+  - apply Permutation_nil in P. discriminate.
+  - apply Permutation_sym, Permutation_nil in P. discriminate.
+  - reflexivity.
+Qed.
+
+(* ================================================================ properties of spec_wrapper itself *)
+
+Fixpoint no_wrap (evs : list event) : Prop :=
+  match evs with
+  | [] => True
+  | EWrap _ :: _ => False
+  | _ :: r => no_wrap r
+  end.
+
+(* without a wrapper line, nothing is attached *)
+Lemma spec_wrapper_none : forall evs, no_wrap evs -> Forall (Forall (eq None)) (spec_wrapper_from None evs).
+Proof.
+  induction evs as [|[g| |] r IH]; intro H; simpl in *; [constructor|destruct H| |]; constructor; auto.
+Qed.
+
+(* after a delivery nothing is pending: each wrapper reaches at most one message *)
+Lemma spec_wrapper_consumed : forall p r, spec_wrapper_from p (EDeliver :: r) = [p] :: spec_wrapper_from None r.
+Proof. reflexivity. Qed.
+
+(* of several wrappers the latest one counts; lines without delivery keep it pending *)
+Lemma spec_wrapper_latest : forall p g r, spec_wrapper_from p (EWrap g :: r) = [] :: spec_wrapper_from (Some g) r.
+Proof. reflexivity. Qed.
